@@ -571,6 +571,14 @@ func tableRunes(v ssa.Value) ([]rune, bool) {
 	if s, ok := stringConst(v); ok {
 		return []rune(s), true
 	}
+	// a package-level table that is initialised once and never written again
+	if u, ok := v.(*ssa.UnOp); ok && u.Op == token.MUL && theWorld != nil {
+		if g, ok := u.X.(*ssa.Global); ok {
+			if iv := theWorld.constGlobalInit(g); iv != nil {
+				v = iv
+			}
+		}
+	}
 	elems := sliceLitElems(v)
 	if len(elems) == 0 {
 		return nil, false
@@ -606,7 +614,7 @@ func c15Predicate(w *World, scope, pred *ssa.Function, resolve func(ssa.Value) s
 			return false, nil, false, "the predicate does not take one rune"
 		}
 	}
-	isC := func(v ssa.Value) bool { return v == c }
+	isC := func(v ssa.Value) bool { return v == c || rvAny(v) == c || origin(v) == c }
 	nSpaceTrue := 0
 	okSpace, okMember = true, true
 	nMemberTrue := 0
